@@ -31,6 +31,10 @@ type Batch struct {
 	Env []string
 	// Strace wraps the child in strace with these arguments (C05 thorough).
 	Strace []string
+	// Slow marks a batch whose single cases are legitimately slow on some machines (4 GiB
+	// buffers): no stall / hang verdict is derived from its timing; running out of its
+	// watchdog is inconclusive. Panics and crashes are still pinned and reported.
+	Slow bool
 }
 
 // Prop describes one property check.
